@@ -9,6 +9,7 @@ import (
 	"math/rand"
 	"os"
 	"path/filepath"
+	"regexp"
 	"strconv"
 	"strings"
 	"sync"
@@ -22,15 +23,27 @@ import (
 // the unified event log of the process is replayed through TaskctlTrace.tla.
 
 type cmpCfg struct {
-	N      int      `json:"n"`
-	Deps   [][]int  `json:"deps"`
-	Cls    []string `json:"cls"`
-	NCmd   []int    `json:"ncmd"`
-	FailAt []int    `json:"failAt"`
+	N       int      `json:"n"`
+	Deps    [][]int  `json:"deps"`
+	Cls     []string `json:"cls"`
+	NCmd    []int    `json:"ncmd"`
+	FailAt  []int    `json:"failAt"`
+	NVar    []int    `json:"nvar"`
+	Ctx     []int    `json:"ctx"` // 0 = no context, else 1..2
+	HB      []string `json:"hb"`  // task before hook: none | ok | fail
+	HA      []string `json:"ha"`  // task after hook
+	UpFails []bool   `json:"upFails"`
 }
 
+const cmpNCtx = 2
+
 func randCompose(rng *rand.Rand, n int) cmpCfg {
-	c := cmpCfg{N: n, Deps: make([][]int, n), Cls: make([]string, n), NCmd: make([]int, n), FailAt: make([]int, n)}
+	c := cmpCfg{N: n, Deps: make([][]int, n), Cls: make([]string, n), NCmd: make([]int, n), FailAt: make([]int, n),
+		NVar: make([]int, n), Ctx: make([]int, n), HB: make([]string, n), HA: make([]string, n), UpFails: make([]bool, cmpNCtx)}
+	rich := rng.Intn(3) > 0 // two thirds of the pipelines use hooks, variations and contexts
+	for k := range c.UpFails {
+		c.UpFails[k] = rich && rng.Intn(5) == 0
+	}
 	for s := 1; s <= n; s++ {
 		c.Deps[s-1] = []int{}
 		for d := 1; d < s; d++ {
@@ -44,20 +57,62 @@ func randCompose(rng *rand.Rand, n int) cmpCfg {
 		if c.Cls[s-1] == "FAIL" || c.Cls[s-1] == "FAILA" {
 			c.FailAt[s-1] = 1 + rng.Intn(c.NCmd[s-1])
 		}
+		c.NVar[s-1], c.HB[s-1], c.HA[s-1] = 1, "none", "none"
+		if rich {
+			c.NVar[s-1] = 1 + rng.Intn(2)
+			c.Ctx[s-1] = rng.Intn(cmpNCtx + 1)
+			c.HB[s-1] = []string{"none", "none", "ok", "ok", "fail"}[rng.Intn(5)]
+			c.HA[s-1] = []string{"none", "none", "ok", "ok", "fail"}[rng.Intn(5)]
+		}
 	}
 	return c
 }
 
+// every job names itself in a trailing comment: "<command> # <owner>-<role>"
 func composeYAML(c cmpCfg, rng *rand.Rand) string {
 	var b strings.Builder
+	hook := func(kind, tag string) string {
+		if kind == "fail" {
+			return fmt.Sprintf("exit 1 # %s", tag)
+		}
+		return fmt.Sprintf("sleep 0.0%d # %s", rng.Intn(3), tag)
+	}
+	used := false
+	for _, x := range c.Ctx {
+		used = used || x != 0
+	}
+	if used {
+		b.WriteString("contexts:\n")
+		for k := 1; k <= cmpNCtx; k++ {
+			up := "ok"
+			if c.UpFails[k-1] {
+				up = "fail"
+			}
+			fmt.Fprintf(&b, "  c%d:\n    up: [\"%s\"]\n    down: [\"%s\"]\n    before: [\"%s\"]\n    after: [\"%s\"]\n", k,
+				hook(up, fmt.Sprintf("c%d-up", k)), hook("ok", fmt.Sprintf("c%d-down", k)), hook("ok", fmt.Sprintf("c%d-cb", k)), hook("ok", fmt.Sprintf("c%d-ca", k)))
+		}
+	}
 	b.WriteString("tasks:\n")
 	for s := 1; s <= c.N; s++ {
-		fmt.Fprintf(&b, "  s%d:\n    command:\n", s)
+		fmt.Fprintf(&b, "  s%d:\n", s)
+		if c.Ctx[s-1] != 0 {
+			fmt.Fprintf(&b, "    context: c%d\n", c.Ctx[s-1])
+		}
+		if c.HB[s-1] != "none" {
+			fmt.Fprintf(&b, "    before: [\"%s\"]\n", hook(c.HB[s-1], fmt.Sprintf("s%d-tb", s)))
+		}
+		if c.HA[s-1] != "none" {
+			fmt.Fprintf(&b, "    after: [\"%s\"]\n", hook(c.HA[s-1], fmt.Sprintf("s%d-ta", s)))
+		}
+		if c.NVar[s-1] == 2 {
+			b.WriteString("    variations:\n      - {VV: a}\n      - {VV: b}\n")
+		}
+		b.WriteString("    command:\n")
 		for k := 1; k <= c.NCmd[s-1]; k++ {
 			if (c.Cls[s-1] == "FAIL" || c.Cls[s-1] == "FAILA") && k == c.FailAt[s-1] {
-				b.WriteString("      - exit 3\n")
+				fmt.Fprintf(&b, "      - \"exit 3 # s%d-cmd\"\n", s)
 			} else {
-				fmt.Fprintf(&b, "      - sleep 0.0%d\n", rng.Intn(4))
+				fmt.Fprintf(&b, "      - \"sleep 0.0%d # s%d-cmd\"\n", rng.Intn(4), s)
 			}
 		}
 	}
@@ -84,16 +139,28 @@ func composeYAML(c cmpCfg, rng *rand.Rand) string {
 }
 
 func composeCfgFile(n int) []byte {
-	return []byte(fmt.Sprintf("CONSTANTS\n  N = %d\n  MaxCmd = 3\nINIT TInit\nNEXT TNext\nCONSTRAINT HW\nINVARIANTS CommandsAfterDependencies StopsAtFailure FinalOK RunOnlyWhileStageRunning\nPOSTCONDITION PostCond\nCHECK_DEADLOCK FALSE\n", n))
+	return []byte(fmt.Sprintf("CONSTANTS\n  N = %d\n  MaxCmd = 3\n  MaxVar = 2\n  NCtx = %d\n  HookKinds = {\"none\", \"ok\", \"fail\"}\nINIT TInit\nNEXT TNext\nCONSTRAINT HW\nINVARIANTS CommandsAfterDependencies StopsAtFailure FinalOK RunOnlyWhileStageRunning UpBeforeUse DownAfterAll OneUpAtATime\nPOSTCONDITION PostCond\nCHECK_DEADLOCK FALSE\n", n, cmpNCtx))
 }
 
-// ComposeCheck runs k random pipelines through the binary and validates their traces.
-func ComposeCheck(env *core.Env, rep *core.Report, k int) map[string]interface{} {
-	mc := core.MustHold(env, core.TLCOpts{Module: "Taskctl", Config: "Taskctl_n2.cfg", Workers: 2})
-	info := map[string]interface{}{"Taskctl_n2": map[string]interface{}{"distinct": mc.Distinct, "generated": mc.Generated, "result": "CommandsAfterDependencies, StopsAtFailure, FinalOK, RunOnlyWhileStageRunning, Terminates hold"}}
-	if env.Thorough() {
-		mc3 := core.MustHold(env, core.TLCOpts{Module: "Taskctl", Config: "Taskctl_n3.cfg", Workers: 8, Timeout: 20 * time.Minute})
-		info["Taskctl_n3"] = map[string]interface{}{"distinct": mc3.Distinct, "generated": mc3.Generated}
+var reJobTag = regexp.MustCompile(`# ([sc])(\d+)-(up|down|cb|ca|tb|ta|cmd)\s*$`)
+
+// ComposeCheck model-checks Taskctl.tla on the given configurations (thorough-only ones after a
+// '+'), runs k random pipelines through the binary and validates their traces.
+func ComposeCheck(env *core.Env, rep *core.Report, k int, models ...string) map[string]interface{} {
+	info := map[string]interface{}{}
+	for _, m := range models {
+		if strings.HasPrefix(m, "+") {
+			if !env.Thorough() {
+				continue
+			}
+			m = m[1:]
+		}
+		w, to := 4, 10*time.Minute
+		if strings.HasSuffix(m, "3") {
+			w, to = 8, 30*time.Minute
+		}
+		mc := core.MustHold(env, core.TLCOpts{Module: "Taskctl", Config: "Taskctl_" + m + ".cfg", Workers: w, Timeout: to})
+		info["Taskctl_"+m] = map[string]interface{}{"distinct": mc.Distinct, "generated": mc.Generated, "result": "CommandsAfterDependencies, StopsAtFailure, UpBeforeUse, DownAfterAll, OneUpAtATime, FinalOK, RunOnlyWhileStageRunning, Terminates hold"}
 	}
 	home := env.Sub("home")
 	type exec struct {
@@ -133,7 +200,8 @@ func ComposeCheck(env *core.Env, rep *core.Report, k int) map[string]interface{}
 		for j := range status {
 			status[j] = "W"
 		}
-		evs := []Event{{"e": "cfg", "n": c.N, "deps": c.Deps, "cls": c.Cls, "ncmd": c.NCmd, "failAt": c.FailAt}}
+		evs := []Event{{"e": "cfg", "n": c.N, "deps": c.Deps, "cls": c.Cls, "ncmd": c.NCmd, "failAt": c.FailAt,
+			"nvar": c.NVar, "ctx": c.Ctx, "hb": c.HB, "ha": c.HA, "upFails": c.UpFails}}
 		var last map[string]interface{}
 		for sc.Scan() {
 			var e map[string]interface{}
@@ -151,15 +219,27 @@ func ComposeCheck(env *core.Env, rep *core.Report, k int) map[string]interface{}
 				evs = append(evs, Event{"e": "ret", "s": id(e["s"]), "failed": e["failed"]})
 			case "RunEnter", "RunExit":
 				evs = append(evs, Event{"e": e["e"], "s": id(e["t"])})
-			case "CmdStart":
-				if id(e["t"]) > 0 {
-					evs = append(evs, Event{"e": "CmdStart", "s": id(e["t"])})
+			case "CmdStart", "CmdEnd":
+				cmd, _ := e["cmd"].(string)
+				m := reJobTag.FindStringSubmatch(cmd)
+				if m == nil {
+					continue
 				}
-			case "CmdEnd":
-				if id(e["t"]) > 0 {
-					evs = append(evs, Event{"e": "CmdEnd", "s": id(e["t"]), "err": e["err"]})
+				k, _ := strconv.Atoi(m[2])
+				ev := Event{"e": e["e"], "role": m[3]}
+				if m[1] == "s" {
+					ev["s"] = k
+				} else {
+					ev["c"] = k
 				}
+				if e["e"] == "CmdEnd" {
+					ev["err"] = e["err"]
+				}
+				evs = append(evs, ev)
 			case "sched-exit":
+				if last == nil {
+					evs = append(evs, Event{"e": "done", "err": e["err"], "final": append([]string{}, status...)})
+				}
 				last = e
 			}
 		}
@@ -167,7 +247,7 @@ func ComposeCheck(env *core.Env, rep *core.Report, k int) map[string]interface{}
 			out[i].bad = "Schedule did not return (no sched-exit event); exit status " + fmt.Sprint(res.Exit)
 			return
 		}
-		evs = append(evs, Event{"e": "done", "err": last["err"], "final": status})
+		evs = append(evs, Event{"e": "end"})
 		out[i].evs = evs
 	})
 	byN := map[int][]int{}
@@ -230,10 +310,16 @@ func ComposeCheck(env *core.Env, rep *core.Report, k int) map[string]interface{}
 				ev := lineEv[line-1]
 				prop := "C02"
 				switch ev["e"] {
-				case "CmdStart", "RunEnter", "enter":
+				case "RunEnter", "enter":
 					prop = "C01"
-				case "CmdEnd", "RunExit":
+				case "CmdStart", "CmdEnd", "RunExit":
 					prop = "C06"
+				case "end":
+					prop = "C14"
+				}
+				switch ev["role"] {
+				case "up", "down", "cb", "ca":
+					prop = "C14"
 				}
 				if v, _ := ev["v"].(string); ev["e"] == "st" && v == "R" {
 					prop = "C01"
@@ -245,6 +331,8 @@ func ComposeCheck(env *core.Env, rep *core.Report, k int) map[string]interface{}
 					prop = "C06"
 				case "FinalOK":
 					prop = "C02"
+				case "UpBeforeUse", "DownAfterAll", "OneUpAtATime":
+					prop = "C14"
 				}
 				for _, p := range []string{prop, "C03"} {
 					if p == "C03" && ev["e"] != "done" {
@@ -267,6 +355,34 @@ func ComposeCheck(env *core.Env, rep *core.Report, k int) map[string]interface{}
 	wg.Wait()
 	info["binary_executions"] = total
 	info["accepted"] = accepted
+	// binding self-test: the same log with one CmdEnd removed (two jobs of one run overlap) must be
+	// rejected - otherwise the trace specification constrains nothing
+	for _, o := range out {
+		cut := -1
+		for j, ev := range o.evs {
+			if ev["e"] == "CmdEnd" {
+				cut = j
+				break
+			}
+		}
+		if o.bad != "" || cut < 0 {
+			continue
+		}
+		var buf bytes.Buffer
+		for j, ev := range o.evs {
+			if j != cut {
+				b, _ := json.Marshal(ev)
+				buf.Write(b)
+				buf.WriteByte('\n')
+			}
+		}
+		res := core.RunTLC(env, core.TLCOpts{Module: "TaskctlTrace", Config: "TaskctlTrace.cfg", Workers: 1, Files: map[string][]byte{"trace.ndjson": buf.Bytes(), "TaskctlTrace.cfg": composeCfgFile(o.cfg.N)}})
+		if res.Violated == "" {
+			core.Broken("binding self-test: a whole-binary log with a CmdEnd removed was accepted by TaskctlTrace.tla")
+		}
+		info["binding_selftest"] = map[string]interface{}{"corruption": "first CmdEnd removed", "rejected_with": res.Violated}
+		break
+	}
 	if total > 0 {
 		for _, o := range out {
 			if o.evs != nil {
